@@ -198,6 +198,9 @@ fn cact(a: &CustomAction) -> Result<String, String> {
         CustomAction::Unicode(c) => format!("uc {}", *c as u32),
         CustomAction::SetMouse { .. } => "sm".into(),
         CustomAction::PushMessage(_) | CustomAction::Cmd(_) | CustomAction::CmdLog(..) | CustomAction::CmdOutputKeys(_) => "oth".into(),
+        // on-press-delay / on-release-delay put the thread to sleep for real time; in the virtual
+        // time of the harness and of the model they change nothing
+        CustomAction::Delay(_) | CustomAction::DelayOnRelease(_) => "oth".into(),
         other => return Err(format!("{other:?}").split(|c: char| !c.is_alphanumeric()).next().unwrap_or("?").to_string()),
     })
 }
@@ -285,10 +288,34 @@ pub fn serialise_kanata(c: &cfg::Cfg, hist: &[KEv]) -> Result<String, String> {
     Ok(out.join(" "))
 }
 
+/// Files a configuration refers to (the dictionary of `defzippy`): lines `;;file <name> <hex(content)>`
+/// inside the configuration text (comments to kanata). Empty for every configuration without them.
+pub fn cfg_files(text: &str) -> rustc_hash::FxHashMap<String, String> {
+    let mut m: rustc_hash::FxHashMap<String, String> = Default::default();
+    for l in text.lines() {
+        if let Some(rest) = l.trim().strip_prefix(";;file ") {
+            let mut it = rest.split_whitespace();
+            if let (Some(name), Some(hexed)) = (it.next(), it.next()) {
+                m.insert(name.to_string(), unhex(hexed));
+            }
+        }
+    }
+    m
+}
+
+/// `lay::parse_cfg`, with the files named in the text handed to the parser
+fn parse_cfg_files(text: &str) -> Result<cfg::Cfg, String> {
+    let files = cfg_files(text);
+    if files.is_empty() {
+        return parse_cfg(text);
+    }
+    cfg::new_from_str(text, files).map_err(|e| format!("{e:?}"))
+}
+
 pub fn expand(line: &str) -> String {
     let p = parse_kline(line);
     OVR_TEXT.with(|t| *t.borrow_mut() = p.cfg_text.clone());
-    match parse_cfg(&p.cfg_text) {
+    match parse_cfg_files(&p.cfg_text) {
         Err(_) => format!("{}X {} REJECT {}", p.tag, p.dbg as u8, p.hist_str),
         Ok(c) => match serialise_kanata(&c, &p.hist) {
             Ok(s) => format!("{}X {} {} {}", p.tag, p.dbg as u8, s, p.hist_str),
@@ -371,7 +398,7 @@ pub struct Runner {
 
 impl Runner {
     pub fn new(cfg_text: &str) -> Result<Self, String> {
-        let k = Kanata::new_from_str(cfg_text, Default::default()).map_err(|e| format!("{e:?}"))?;
+        let k = Kanata::new_from_str(cfg_text, cfg_files(cfg_text)).map_err(|e| format!("{e:?}"))?;
         Ok(Runner { k, names: keycode_names(), seen: 0, vt: 0, out: vec![], ms_elapsed: 0 })
     }
     fn collect(&mut self) {
@@ -472,7 +499,7 @@ pub fn run_hist(r: &mut Runner, hist: &[KEv], loop_mode: bool, dbg: bool) {
 pub fn eval(line: &str) -> String {
     let p = parse_kline(line);
     OVR_TEXT.with(|t| *t.borrow_mut() = p.cfg_text.clone());
-    match parse_cfg(&p.cfg_text) {
+    match parse_cfg_files(&p.cfg_text) {
         Err(_) => return "rej".into(),
         Ok(c) => {
             if let Err(why) = serialise_kanata(&c, &p.hist) {
